@@ -352,6 +352,10 @@ func genGbRecordN(rng *rand.Rand, fixedN, maxSeq, maxFeats int) (lines []string,
 	txt := func(ws []string) string { return strings.Join(ws, " ") }
 	def := wordsN(rng, 1+rng.Intn(30), ",.;:()-")
 	acc, ver, kws := wordsN(rng, 1+rng.Intn(2), ""), wordsN(rng, 1+rng.Intn(2), ".:"), wordsN(rng, 1+rng.Intn(5), ";.")
+	if rng.Intn(3) == 0 { // the classic NCBI VERSION line: two blanks between the version and the GI number (a short
+		// line that no writer wraps: runs of blanks at a wrap point cannot be represented)
+		ver = []string{ver[0] + "  GI:" + fmt.Sprint(1000+rng.Intn(9000000))}
+	}
 	src, org := wordsN(rng, 1+rng.Intn(4), "."), wordsN(rng, 2+rng.Intn(14), ";.")
 	want.Definition, want.Accession, want.Version, want.Keywords, want.Source, want.Organism = txt(def), txt(acc), txt(ver), txt(kws), txt(src), txt(org)
 	lines = append(lines, block("DEFINITION", def, kw)...)
